@@ -199,9 +199,19 @@ Lemma lex_unfold : forall f s0,
     end
   else None.
 Proof.
-  intros f s0. simpl. destruct (valid (preprocess s0)) eqn:Ev; simpl; [|reflexivity].
-  apply valid_scans in Ev. destruct Ev as [ts [_ [_ [Hf Hc]]]]. rewrite Hf, Hc, str_eqb_refl.
-  simpl. rewrite ?andb_false_r. reflexivity.
+  intros f s0.
+  change (lex (S f) s0) with
+    (let s := preprocess s0 in
+     if negb (valid s) then None
+     else let ts := finditer (length s) true s in
+          if gen_coverage_check && negb (str_eqb (concat ts) s) then None
+          else match map_opt (process (lex f)) ts with Some raw => group raw | None => None end).
+  cbv zeta. destruct (valid (preprocess s0)) eqn:Ev; cbn [negb]; [|reflexivity].
+  apply valid_scans in Ev. destruct Ev as [ts [_ [_ [Hf Hc]]]].
+  assert (Hcov : gen_coverage_check &&
+                 negb (str_eqb (concat (finditer (length (preprocess s0)) true (preprocess s0))) (preprocess s0)) = false).
+  { rewrite Hf, Hc, str_eqb_refl. apply andb_false_r. }
+  rewrite Hcov. reflexivity.
 Qed.
 
 (** ---- preprocessing ---- *)
